@@ -356,6 +356,12 @@ def date_codec(prog: Program, rep, rule="date-codec"):
     wl = return_leaves(prog.need_method(dt, "write").node)
 
     def is_from_ts(v):
+        # fromtimestamp(*struct.unpack("<i", data)): the one unpacked word passed by unpacking the 1-tuple
+        if isinstance(v, ast.Call) and norm(v.func) in ("datetime.fromtimestamp", "datetime.datetime.fromtimestamp") and len(v.args) == 1 and not v.keywords \
+                and isinstance(v.args[0], ast.Starred) and isinstance(v.args[0].value, ast.Call) and norm(v.args[0].value.func) in ("struct.unpack", "struct.unpack_from") \
+                and v.args[0].value.args and isinstance(v.args[0].value.args[0], ast.Constant) and isinstance(v.args[0].value.args[0].value, str) \
+                and len(v.args[0].value.args[0].value.lstrip("<>=!@")) == 1:
+            return True
         return isinstance(v, ast.Call) and norm(v.func) in ("datetime.fromtimestamp", "datetime.datetime.fromtimestamp") and len(v.args) == 1 and not v.keywords \
             and isinstance(v.args[0], ast.Subscript) and isinstance(v.args[0].slice, ast.Constant) and v.args[0].slice.value == 0 \
             and isinstance(v.args[0].value, ast.Call) and norm(v.args[0].value.func) in ("struct.unpack", "struct.unpack_from")      # the stored word itself, not a clamped / shifted one
